@@ -323,28 +323,43 @@ namespace c08
     static L1 g_l1;
     static L2 g_l2;
 
-    struct trk_counts
+    // instrumented Tracker: every tracked_allocator layer of a composition gets its own id and logs its callbacks
+    struct trk_ev
     {
-        long na = 0, aa = 0, nd = 0, ad = 0;
+        int   id, fn; // fn 0 allocation, 1 deallocation
+        int   array;
+        void* p;
     };
-    static trk_counts g_trk;
+    constexpr int                MAX_TRK = 4;
+    static std::vector<trk_ev>   g_trkev;          // callbacks during the current operation
+    static long                  g_trktot[MAX_TRK][2]; // per tracker: allocations, deallocations of the whole sequence
     struct trk
     {
-        void on_node_allocation(void*, std::size_t, std::size_t) noexcept
+        int id = 0;
+        trk() = default;
+        explicit trk(int i) : id(i) {}
+        void ev(int fn, int array, void* p) noexcept
         {
-            ++g_trk.na;
+            g_trkev.push_back({id, fn, array, p});
+            ++g_trktot[id][fn];
+            if (g_verbose_calls)
+                std::printf("      tracker %d: on_%s_%s\n", id, array ? "array" : "node", fn ? "deallocation" : "allocation");
         }
-        void on_array_allocation(void*, std::size_t, std::size_t, std::size_t) noexcept
+        void on_node_allocation(void* p, std::size_t, std::size_t) noexcept
         {
-            ++g_trk.aa;
+            ev(0, 0, p);
         }
-        void on_node_deallocation(void*, std::size_t, std::size_t) noexcept
+        void on_array_allocation(void* p, std::size_t, std::size_t, std::size_t) noexcept
         {
-            ++g_trk.nd;
+            ev(0, 1, p);
         }
-        void on_array_deallocation(void*, std::size_t, std::size_t, std::size_t) noexcept
+        void on_node_deallocation(void* p, std::size_t, std::size_t) noexcept
         {
-            ++g_trk.ad;
+            ev(1, 0, p);
+        }
+        void on_array_deallocation(void* p, std::size_t, std::size_t, std::size_t) noexcept
+        {
+            ev(1, 1, p);
         }
     };
 
@@ -461,6 +476,7 @@ namespace c08
         std::string             name, type;
         int                     leaves;
         std::function<IComp*()> make;
+        std::vector<unsigned>   tmask; // per tracker id: bit i set = leaf<i> lies below that tracked_allocator layer
     };
 
     inline std::vector<comp_def> comp_defs()
@@ -471,7 +487,7 @@ namespace c08
         v.push_back({"F01_2", "fallback<fallback<L0,L1>,L2>", 3, [] { return new Comp<FB<FB<L0, L1>, L2>>(FB<L0, L1>(L0{}, L1{}), L2{}); }});
         v.push_back({"F0_12", "fallback<L0,fallback<L1,L2>>", 3, [] { return new Comp<FB<L0, FB<L1, L2>>>(L0{}, FB<L1, L2>(L1{}, L2{})); }});
         v.push_back({"Fa0_1", "fallback<aligned<L0>,L1>", 2, [] { return new Comp<FB<AL<L0>, L1>>(AL<L0>(MINAL, L0{}), L1{}); }});
-        v.push_back({"Ft0_1", "fallback<tracked<L0>,L1>", 2, [] { return new Comp<FB<TR<L0>, L1>>(TR<L0>(trk{}, L0{}), L1{}); }});
+        v.push_back({"Ft0_1", "fallback<tracked<L0>,L1>", 2, [] { return new Comp<FB<TR<L0>, L1>>(TR<L0>(trk{0}, L0{}), L1{}); }, {1u}});
         v.push_back({"Fr0_1", "fallback<allocator_reference<L0>,L1>", 2, [] { return new Comp<FB<RF<L0>, L1>>(RF<L0>(g_l0), L1{}); }});
         v.push_back({"Fy0_1", "fallback<any_allocator_reference(L0),L1>", 2, [] { return new Comp<FB<ANY, L1>>(ANY(g_l0), L1{}); }});
         v.push_back({"Fs0_1", "fallback<thread_safe_allocator<L0>,L1>", 2, [] { return new Comp<FB<TS<L0>, L1>>(TS<L0>(L0{}), L1{}); }});
@@ -479,26 +495,36 @@ namespace c08
         v.push_back({"F0_y1", "fallback<L0,any_allocator_reference(L1)>", 2, [] { return new Comp<FB<L0, ANY>>(L0{}, ANY(g_l1)); }});
         // depth 3 around the default
         v.push_back({"Fatr0_1", "fallback<aligned<tracked<allocator_reference<L0>>>,L1>", 2,
-                     [] { return new Comp<FB<AL<TR<RF<L0>>>, L1>>(AL<TR<RF<L0>>>(MINAL, TR<RF<L0>>(trk{}, RF<L0>(g_l0))), L1{}); }});
+                     [] { return new Comp<FB<AL<TR<RF<L0>>>, L1>>(AL<TR<RF<L0>>>(MINAL, TR<RF<L0>>(trk{0}, RF<L0>(g_l0))), L1{}); }, {1u}});
         v.push_back({"Ftay0_1", "fallback<tracked<aligned<any_allocator_reference(L0)>>,L1>", 2,
-                     [] { return new Comp<FB<TR<AL<ANY>>, L1>>(TR<AL<ANY>>(trk{}, AL<ANY>(MINAL, ANY(g_l0))), L1{}); }});
+                     [] { return new Comp<FB<TR<AL<ANY>>, L1>>(TR<AL<ANY>>(trk{0}, AL<ANY>(MINAL, ANY(g_l0))), L1{}); }, {1u}});
         v.push_back({"Fsat0_1", "fallback<thread_safe<aligned<tracked<L0>>>,L1>", 2,
-                     [] { return new Comp<FB<TS<AL<TR<L0>>>, L1>>(TS<AL<TR<L0>>>(AL<TR<L0>>(MINAL, TR<L0>(trk{}, L0{}))), L1{}); }});
+                     [] { return new Comp<FB<TS<AL<TR<L0>>>, L1>>(TS<AL<TR<L0>>>(AL<TR<L0>>(MINAL, TR<L0>(trk{0}, L0{}))), L1{}); }, {1u}});
         // nested fallbacks with layers
         v.push_back({"F_a0t1_2", "fallback<fallback<aligned<L0>,tracked<L1>>,L2>", 3, [] {
-                         return new Comp<FB<FB<AL<L0>, TR<L1>>, L2>>(FB<AL<L0>, TR<L1>>(AL<L0>(MINAL, L0{}), TR<L1>(trk{}, L1{})), L2{});
-                     }});
+                         return new Comp<FB<FB<AL<L0>, TR<L1>>, L2>>(FB<AL<L0>, TR<L1>>(AL<L0>(MINAL, L0{}), TR<L1>(trk{0}, L1{})), L2{});
+                     }, {2u}});
         v.push_back({"Fr0_Fy1_2", "fallback<allocator_reference<L0>,fallback<any_allocator_reference(L1),L2>>", 3,
                      [] { return new Comp<FB<RF<L0>, FB<ANY, L2>>>(RF<L0>(g_l0), FB<ANY, L2>(ANY(g_l1), L2{})); }});
         v.push_back({"aF01_2", "aligned<fallback<fallback<L0,L1>,L2>>", 3, [] {
                          return new Comp<AL<FB<FB<L0, L1>, L2>>>(MINAL, FB<FB<L0, L1>, L2>(FB<L0, L1>(L0{}, L1{}), L2{}));
                      }});
         v.push_back({"tF0_12", "tracked<fallback<L0,fallback<L1,L2>>>", 3, [] {
-                         return new Comp<TR<FB<L0, FB<L1, L2>>>>(trk{}, FB<L0, FB<L1, L2>>(L0{}, FB<L1, L2>(L1{}, L2{})));
-                     }});
+                         return new Comp<TR<FB<L0, FB<L1, L2>>>>(trk{0}, FB<L0, FB<L1, L2>>(L0{}, FB<L1, L2>(L1{}, L2{})));
+                     }, {7u}});
         v.push_back({"sF01_2", "thread_safe_allocator<fallback<fallback<L0,L1>,L2>>", 3, [] {
                          return new Comp<TS<FB<FB<L0, L1>, L2>>>(FB<FB<L0, L1>, L2>(FB<L0, L1>(L0{}, L1{}), L2{}));
                      }});
+        // every default has its own tracker: a tracker must only hear of its own allocator's memory
+        v.push_back({"F_t0t1_2", "fallback<fallback<tracked#0<L0>,tracked#1<L1>>,L2>", 3, [] {
+                         return new Comp<FB<FB<TR<L0>, TR<L1>>, L2>>(FB<TR<L0>, TR<L1>>(TR<L0>(trk{0}, L0{}), TR<L1>(trk{1}, L1{})), L2{});
+                     }, {1u, 2u}});
+        v.push_back({"Ft0_Ft1_2", "fallback<tracked#0<L0>,fallback<tracked#1<L1>,L2>>", 3, [] {
+                         return new Comp<FB<TR<L0>, FB<TR<L1>, L2>>>(TR<L0>(trk{0}, L0{}), FB<TR<L1>, L2>(TR<L1>(trk{1}, L1{}), L2{}));
+                     }, {1u, 2u}});
+        v.push_back({"F_tF01_t2", "fallback<tracked#0<fallback<L0,L1>>,tracked#1<L2>>", 3, [] {
+                         return new Comp<FB<TR<FB<L0, L1>>, TR<L2>>>(TR<FB<L0, L1>>(trk{0}, FB<L0, L1>(L0{}, L1{})), TR<L2>(trk{1}, L2{}));
+                     }, {3u, 4u}});
         {
             using IN = FB<FB<L0, L1>, L2>;
             v.push_back({"yF01_2", "any_allocator_reference(fallback<fallback<L0,L1>,L2>)", 3, [] {
@@ -640,6 +666,58 @@ namespace c08
             return true;
         }
 
+        // tracker oracle for ONE operation: `aleaf` = leaf that served an allocation of `p` in this operation (-1 none),
+        // `dleaf` = leaf that took `p` back in this operation (-1 none). A tracker must have exactly one allocation /
+        // deallocation callback for `p` iff that leaf lies below its tracked_allocator layer, and no other callback.
+        void check_trackers(int aleaf, int dleaf, void* p, int op, const live_t* l)
+        {
+            if (cd.tmask.empty())
+                return;
+            auto mkwhat = [&] {
+                std::string w = op >= 0 ? op_name(op) : std::string("final release");
+                if (l)
+                    w += " (" + l->s.str() + fmt(" served by leaf<%d>)", l->leaf);
+                return w;
+            };
+            for (std::size_t t = 0; t < cd.tmask.size(); ++t)
+            {
+                int na = 0, nd = 0, other = 0;
+                for (auto& e : g_trkev)
+                    if (e.id == int(t))
+                    {
+                        if (e.p != p)
+                            ++other;
+                        else if (e.fn == 0)
+                            ++na;
+                        else
+                            ++nd;
+                    }
+                int wa = aleaf >= 0 && (cd.tmask[t] >> aleaf & 1u) ? 1 : 0;
+                int wd = dleaf >= 0 && (cd.tmask[t] >> dleaf & 1u) ? 1 : 0;
+                if (nd > wd)
+                    fail("tracker-told-of-release-its-allocator-refused",
+                         fmt("%s: tracker #%zu (over leaves mask 0x%x) got %d deallocation callback(s), its allocator %s", mkwhat().c_str(), t, cd.tmask[t], nd,
+                             dleaf < 0 ? "released nothing (every try_deallocate answered false)"
+                                       : wd ? "accepted the memory once" : fmt("refused the memory, leaf<%d> took it", dleaf).c_str()));
+                else if (nd < wd)
+                    fail("tracker-missed-release", fmt("%s: tracker #%zu got no deallocation callback although leaf<%d> below it took the memory back",
+                                                       mkwhat().c_str(), t, dleaf));
+                if (na != wa)
+                    fail("tracker-allocation-callbacks-wrong", fmt("%s: tracker #%zu got %d allocation callback(s), expected %d (serving leaf %d)", mkwhat().c_str(),
+                                                                   t, na, wa, aleaf));
+                if (other)
+                    fail("tracker-callback-for-other-memory", fmt("%s: tracker #%zu got %d callback(s) for a pointer this operation did not touch", mkwhat().c_str(), t, other));
+            }
+            if (counting() && !cd.tmask.empty())
+            {
+                if (dleaf >= 0)
+                    bump("p2_tracker_checked_releases");
+                for (std::size_t t = 0; t < cd.tmask.size(); ++t)
+                    if (dleaf >= 0 && !(cd.tmask[t] >> dleaf & 1u))
+                        bump("p2_tracker_must_stay_silent_on_sibling_release");
+            }
+        }
+
         void body(const std::vector<int>& ops, outcome& out, bool verbose)
         {
             auto& u = UP();
@@ -648,7 +726,8 @@ namespace c08
             next_pat      = 0;
             cur_step      = -1;
             used_fallback = false;
-            g_trk         = trk_counts();
+            std::memset(g_trktot, 0, sizeof g_trktot);
+            g_trkev.clear();
             g_verbose_calls = verbose;
             // leaf buffers adjacent: leaf0 | leaf1 | leaf2 | outsider
             std::size_t off = 0;
@@ -683,6 +762,7 @@ namespace c08
                 counting() = int(step) >= count_from();
                 int op   = ops[step];
                 g_calls.clear();
+                g_trkev.clear();
                 std::string res;
                 if (verbose)
                     std::printf("  step %zu: %s\n", step, op_name(op).c_str());
@@ -739,6 +819,8 @@ namespace c08
                         if (counting()) class_keys().insert(fmt("%s|alloc|%d|none", name().c_str(), op));
                     }
                     if (verbose) res = p ? fmt("memory of leaf<%d>", served) : threw ? "exception" : "null";
+                    if (!bad)
+                        check_trackers(p ? served : -1, -1, p, op, nullptr);
                 }
                 else if (op == 50)
                 {
@@ -755,6 +837,8 @@ namespace c08
                         fail("outsider-memory-accepted", "try_deallocate_node of the composition returned true for memory none of its allocators handed out");
                         bad = true;
                     }
+                    if (!bad)
+                        check_trackers(-1, -1, outsider, op, nullptr);
                     if (counting()) class_keys().insert(fmt("%s|outsider|%d", name().c_str(), r ? 1 : 0));
                     if (verbose) res = r ? "true" : "false";
                 }
@@ -787,6 +871,8 @@ namespace c08
                             fail("composition-own-memory-not-recognised", fmt("try_deallocate of the composition returned false for %s it handed out (leaf<%d>)",
                                                                               l.s.str().c_str(), l.leaf));
                     }
+                    if (vios().empty())
+                        check_trackers(-1, where, l.p, op, &l);
                     if (!vios().empty())
                         bad = true;
                     live.erase(live.begin() + idx);
@@ -850,8 +936,21 @@ namespace c08
                 {
                     live_t l = live.back();
                     live.pop_back();
+                    g_calls.clear();
+                    g_trkev.clear();
                     C->dealloc(l.p, l.s, try_mode);
+                    int where = -1;
+                    for (auto& c : g_calls)
+                        if (c.fn >= 2 && c.ok)
+                            where = c.leaf;
+                    if (vios().empty())
+                        check_trackers(-1, where, l.p, -1, &l);
                 }
+                if (vios().empty())
+                    for (std::size_t t = 0; t < cd.tmask.size(); ++t)
+                        if (g_trktot[t][0] != g_trktot[t][1])
+                            fail("tracker-unbalanced-at-end", fmt("everything released: tracker #%zu saw %ld allocation(s) and %ld deallocation(s)", t,
+                                                                  g_trktot[t][0], g_trktot[t][1]));
                 if (!vios().empty())
                 {
                     for (auto& x : vios())
